@@ -42,6 +42,13 @@ class NoW(Base):
         LOG.append((type(self).__name__, dict(v=v), self))
 
 
+class NoParams(Base):
+    """A subclass whose constructor takes no parameter at all."""
+
+    def __init__(self):
+        LOG.append((type(self).__name__, dict(), self))
+
+
 class Other:
     def __init__(self, q: int = 0):
         self.q = q
